@@ -217,6 +217,7 @@ func runC09(a *A) {
 	})
 	a.Rule("keyenc/counting", 1, func() { a.keyencRule("window", "CountingWindow", "getKey", keyencOpts{}) })
 	a.Rule("aggstate/reset", 2, func() { a.ruleAggregatorReset() })
+	a.Rule("flow/all-aggregates-fed", 1, func() { a.ruleAllAggregatesFed() })
 	a.Rule("fnsafe/alloc-bounded-by-data", 1, func() { a.ruleAllocBoundedByData() })
 	a.Rule("flow/evicted-result-counted", 1, func() { a.ruleEvictedResultCounted(a.Named("window", "CountingWindow")) })
 	a.Rule("whomay/consumers", 3, func() {
